@@ -72,7 +72,8 @@ pub fn wrap(inner: &Term) -> Vec<Term> {
         out.push(Term::Only(Box::new(inner.clone()), s.clone()));
         out.push(Term::Except(Box::new(inner.clone()), s));
     }
-    for p in ["p-", ""] {
+    // two different non-empty prefixes (the order of nested prefixes is observable) and the empty one
+    for p in ["p-", "q-", ""] {
         out.push(Term::Prefix(Box::new(inner.clone()), p.to_string()));
     }
     // renames: injective partial maps of <= 2 current names into the current names + {e f}
@@ -261,7 +262,7 @@ pub fn run(ctx: &Ctx) -> i32 {
             tier: ctx.tier_name(),
             seed: ctx.seed,
             exhaustive: true,
-            rule: "every import-set term of nesting depth <= D over a library exporting a b c d: only / except with every subset of the current names, prefix p- and the empty prefix, rename with every injective partial map of <= 2 current names into the current names + {e f} without duplicate results (swaps, chains, both orders of the pairs); each term with the library supplied natively, as registered source and as a file; every ordered pair of depth-<=1 terms in one declaration; each declaration on two interpreter instances; states = terms, distinct = distinct binding sets".into(),
+            rule: "every import-set term of nesting depth <= D over a library exporting a b c d: only / except with every subset of the current names, prefixes p-, q- and the empty prefix, rename with every injective partial map of <= 2 current names into the current names + {e f} without duplicate results (swaps, chains, both orders of the pairs); each term with the library supplied natively, as registered source and as a file; every ordered pair of depth-<=1 terms in one declaration; each declaration on two interpreter instances; states = terms, distinct = distinct binding sets".into(),
             bounds: json!({"depth": depth, "terms": nterms, "supply_modes": MODES.len(), "union_pairs": npairs}),
             assumptions: vec!["hash seeds cannot be enumerated: two instances per declaration are a sample of the seed space, the term space is exhaustive".into()],
             wall_s: ctx.elapsed(),
